@@ -168,9 +168,15 @@ def flatten(t):
 
 
 class Auditor:
-    def __init__(self, ctx, prog, engine_label='M-audit'):
+    def __init__(self, ctx, prog, engine_label='M-audit', only=None):
         self.ctx, self.prog = ctx, prog
         self.label = engine_label
+        # `only`: regex of obligation names; the others are neither decided nor recorded (a check of one property re-using
+        # selected obligations of another property's audit)
+        self.only = re.compile(only) if only else None
+
+    def wants(self, name):
+        return self.only is None or bool(self.only.search(name))
 
     def paths(self, func, inline=None, args=None, extra_models=None, max_depth=6, state=None, unwind=1, allow_bound=False,
               same_file=False):
@@ -200,6 +206,8 @@ class Auditor:
     def require(self, name, paths, pred, replay=None, finding_key=None, only=None):
         """pred(path) -> None (satisfied) | str (violation description).  One obligation."""
         import time
+        if not self.wants(name):
+            return True
         t0 = time.time()
         viol = []
         n = 0
